@@ -112,7 +112,8 @@ ScenR ==
 \* ------------------------------------------------------------- scenario P: patches
 ScenP ==
   { << P("nsa", DStruct0("Sa", NoRef, <<f1>>)), P("nsa", DStruct0("Sb", R("Sa"), <<DField("g1", I32)>>)),
-       P("nsa", DUnionS("Ua", ca, NoRef, <<VT("t1")>>)), P("nsa", DAliasS("Aa", R("Sa"))) >> \o p1 \o p2 :
+       P("nsa", DUnionS("Ua", ca, NoRef, <<VT("t1")>>)), P("nsa", DAliasS("Aa", R("Sa"))),
+       P("nsa", DRoute("ra", 1, R("Sa"), R("Void"), R("Void"), NoDep)) >> \o p1 \o p2 :
       ca \in BOOLEAN,
       p1 \in { <<>>,
                <<P("nsa", PatchS("Sa", <<DField("h1", I32)>>))>>,
@@ -132,6 +133,9 @@ ScenP ==
                <<P("nsa", PatchU("Ua", TRUE, <<VT("t2")>>))>>,
                <<P("nsa", PatchU("Ua", FALSE, <<VT("t1")>>))>>,
                <<P("nsa", PatchU("Ua", FALSE, <<VT("other")>>))>>,
+               \* a union patch whose name belongs to something that is neither a struct nor a union
+               <<P("nsa", PatchU("Aa", FALSE, <<VT("t2")>>))>>, <<P("nsa", PatchU("ra", TRUE, <<VT("t2")>>))>>,
+               <<P("nsa", PatchS("ra", <<DField("h1", I32)>>))>>, <<P("nsa", PatchU("Sa", FALSE, <<VT("t2")>>))>>,
                <<P("nsa", PatchU("Ua", FALSE, <<TT("t2", R("Sa"))>>)), P("nsa", PatchU("Ua", FALSE, <<VT("t3")>>))>> } }
 
 Instances == CASE Scenario = "A" -> ScenA [] Scenario = "B" -> ScenB [] Scenario = "C" -> ScenC
